@@ -549,6 +549,41 @@ func c15Classify(sch *vh.C15Schema, strict bool, p *ast.Policy, whole ast.IsNode
 			return "in-action-type-cross-namespace"
 		}
 	}
+	// (8) `in` whose left operand is a NON-action entity that is a member of an action entity (possible only when the
+	// schema declares an entity type NAMED `Action` and lists it under memberOf) and whose right operand holds an action
+	// of another action entity type: the entity-type hierarchy (the declared `Action` type has no parents) folds it to False
+	{
+		hit := false
+		isAct := func(t types.EntityType) bool { return t == "Action" || strings.HasSuffix(string(t), "::Action") }
+		for _, cd := range p.Conditions {
+			c15Walk(cd.Body, func(n ast.IsNode) {
+				in, ok := n.(ast.NodeTypeIn)
+				if !ok {
+					return
+				}
+				lv, lk := c15Eval(in.Left, env)
+				rv, rk := c15Eval(in.Right, env)
+				res, k := c15Eval(in, env)
+				luid, ok := lv.(types.EntityUID)
+				if lk != "" || rk != "" || k != "" || !ok || isAct(luid.Type) || res != types.Value(types.True) {
+					return
+				}
+				switch r := rv.(type) {
+				case types.EntityUID:
+					hit = hit || isAct(r.Type)
+				case types.Set:
+					for e := range r.All() {
+						if u, ok := e.(types.EntityUID); ok && isAct(u.Type) {
+							hit = true
+						}
+					}
+				}
+			})
+		}
+		if hit {
+			return "in-entity-below-declared-action-type"
+		}
+	}
 	return "accepted-policy-fails-" + kind
 }
 
@@ -783,8 +818,18 @@ action "grp";
 namespace NS { action "view" in [Action::"grp"] appliesTo { principal: [A], resource: [B], context: { n: Long } }; }
 `
 
-// c15EntityCorpus replays the failing inputs of the two findings of the entity extension of the Lean model
-// (C15_hasTag_mixed_counterexample, C15_action_cross_namespace_counterexample) on fixed schemas, both modes.
+// a schema that declares an entity type NAMED `Action` and lists it under memberOf (cedar-go's resolver accepts it)
+const c15DeclActSchema = `
+entity Action;
+entity A in [Action];
+entity B;
+action "grp" in [NS::Action::"top"];
+namespace NS { action "top"; action "view" appliesTo { principal: [A], resource: [B], context: { n: Long } }; }
+`
+
+// c15EntityCorpus replays the failing inputs of the findings of the entity extension of the Lean model on fixed schemas,
+// both modes: hastag-lub-mixed-tags and in-action-type-cross-namespace (repaired; regression examples at `c15MixedTag` /
+// `c15CrossNs` in Properties/C15.lean) and in-entity-below-declared-action-type (C15_declared_action_type_counterexample).
 func c15EntityCorpus(c *vh.Ctx) {
 	type probe struct {
 		name, schema, policy string
@@ -795,7 +840,7 @@ func c15EntityCorpus(c *vh.Ctx) {
 	act, grp := types.NewEntityUID("Action", "view"), types.NewEntityUID("Action", "grp")
 	ctx1 := types.NewRecord(types.RecordMap{"a.b": types.NewRecord(types.RecordMap{}), "a": types.NewRecord(types.RecordMap{"b": types.NewRecord(types.RecordMap{})}), "n": types.Long(3)})
 	a, b := types.NewEntityUID("A", "a"), types.NewEntityUID("B", "b")
-	nsAct := types.NewEntityUID("NS::Action", "view")
+	nsAct, nsTop := types.NewEntityUID("NS::Action", "view"), types.NewEntityUID("NS::Action", "top")
 	ctx2 := types.NewRecord(types.RecordMap{"n": types.Long(3)})
 	probes := []probe{
 		{name: "hastag-mixed", schema: c15CorpusSchema,
@@ -815,6 +860,16 @@ func c15EntityCorpus(c *vh.Ctx) {
 				b:     types.Entity{UID: b},
 				nsAct: types.Entity{UID: nsAct, Parents: types.NewEntityUIDSet(grp)},
 				grp:   types.Entity{UID: grp},
+			}},
+		{name: "in-declared-action-type", schema: c15DeclActSchema,
+			policy: `permit(principal, action, resource) when { if principal in NS::Action::"top" then (1 + "a") == 2 else true };`,
+			req:    types.Request{Principal: a, Action: nsAct, Resource: b, Context: ctx2},
+			ents: types.EntityMap{
+				a:     types.Entity{UID: a, Parents: types.NewEntityUIDSet(grp)},
+				b:     types.Entity{UID: b},
+				nsAct: types.Entity{UID: nsAct},
+				grp:   types.Entity{UID: grp, Parents: types.NewEntityUIDSet(nsTop)},
+				nsTop: types.Entity{UID: nsTop},
 			}},
 	}
 	for _, pr := range probes {
